@@ -13,7 +13,7 @@ From Coq Require Import List String Bool Arith ZArith Lia.
 From EKW Require Import Graph.GStore Graph.ExportCheck Graph.Denote Graph.Engine Graph.EngineProofs.
 From EKW Require Import Graph.Copy Graph.Rename Graph.CopyProofs Graph.Dedup Graph.DedupProofs Graph.DedupIdem.
 From EKW Require Import Graph.Split Graph.SplitProofs Graph.Expand Graph.ExpandProofs Graph.Fuse Graph.FuseProofs.
-From EKW Require Import Graph.EngineFuel Graph.EngineFuelAll.
+From EKW Require Import Graph.EngineFuel Graph.EngineFuelAll Graph.ExpandSplice.
 From EKW Require Import Graph.EngineCheck.
 Import ListNotations.
 Open Scope string_scope.
@@ -181,6 +181,32 @@ Proof.
   - intros s Hin. destruct (H2 s Hin) as [[]|Hx]. exact Hx.
 Qed.
 
+(* ... and on the input side, for ANY node inputs, input map (none, or explicit: empty,
+   partial, renaming across the node's input names, several sources on one input, keys that
+   name no source) and sub-graph source s: s is replaced by a processor with the same
+   payload and outputs fed through "input" by exactly the input the map assigns to it
+   (source_binding: without a map the input called like s; with an explicit map the input
+   map[s]), and it STAYS a source -- only renamed -- when the map does not bind it, whatever
+   the node's inputs are called.  An explicit map naming a non-input is a KeyError. *)
+Theorem C11_expand_sources :
+  forall (P : Type) pname (inputs : list (string * (nat * string))) (imap : option smap) spi (spo : smap)
+         (h' : list (node P)) n (s : node P) ins,
+  mk_sp_inputs inputs imap = Ok spi -> nins s = [] ->
+  splicer_visit pname spi spo h' n s ins =
+    Ok (h' ++ [mkNode (pname ++ "." ++ nname s) (nouts s) (npay s)
+                      (match source_binding inputs imap (nname s) with Some inp => [("input", inp)] | None => [] end)],
+        List.length h').
+Proof.
+  intros P pname inputs imap spi spo h' n s ins Hm Hs.
+  rewrite (splicer_visit_source P pname spi spo h' n s ins Hs).
+  rewrite (mk_sp_inputs_lookup inputs imap spi Hm (nname s)). reflexivity.
+Qed.
+
+Theorem C11_expand_input_map_keyerror :
+  forall (inputs : list (string * (nat * string))) (m : smap),
+  (exists e, mk_sp_inputs inputs (Some m) = Err e) <-> exists k i, In (k, i) m /\ lookup i inputs = None.
+Proof. exact mk_sp_inputs_keyerror. Qed.
+
 (* expand_graph preserves what the sinks that are not expanded denote, for ANY expander,
    GIVEN that every spliced sub-graph denotes the node it replaces (hypothesis
    splice_denotes: stated on the result of the model's splice step).  Partial: that
@@ -202,6 +228,51 @@ Theorem C11_expand_preserves_partial :
 Proof.
   intros P V interp expander g g' Ht Hsp H.
   exact (expand_preserves_sem P V interp expander (heap g) Ht Hsp g g' eq_refl H).
+Qed.
+
+(* what the spliced-in nodes denote, for EVERY interpretation, sub-graph and pair of maps:
+   the leaf registered under a name is the transformed version of a sink of the sub-graph
+   called so (the prefix "<expanded node>." removed), and it denotes what that sink denotes
+   in the sub-graph read with its bound sources connected (ssem, Graph/ExpandSplice.v): a
+   source called k is payload(input = v) when the input map binds k to a node input whose
+   transformed value is v (source_binding), and payload() otherwise -- so nothing of the
+   outer graph enters the sub-graph except through the input map *)
+Theorem C11_expand_splice_sem :
+  forall (P V : Type) (interp : option P -> list string -> list (string * V) -> string -> V)
+         pname (inputs : list (string * (nat * string))) (imap : option smap) spi (spo : smap)
+         (sub : graph P) (h0 h1 : list (node P)) r,
+  topo (heap sub) -> topo h0 -> Forall (fun x => fst (snd x) < List.length h0) inputs ->
+  mk_sp_inputs inputs imap = Ok spi ->
+  splice pname spi spo h0 sub = Ok (h1, r) ->
+  (exists ext, h1 = h0 ++ ext) /\ topo h1 /\
+  exists leaves inner, r = RSub leaves spo inner /\
+  forall lname leaf, lookup_last lname leaves = Some leaf ->
+    leaf < List.length h1 /\
+    exists s ns, In s (sinks sub) /\ nth_error (heap sub) s = Some ns /\ nname ns = lname /\
+      forall o, sem interp h1 leaf o =
+                ssem interp (fun k => option_map (fun inp => sem interp h0 (fst inp) (snd inp)) (source_binding inputs imap k))
+                     spo (heap sub) s o.
+Proof. exact splice_leaves_binding. Qed.
+
+(* expand_graph preserves what the sinks that are not expanded denote, for ANY expander
+   whose answers keep a contract stated on the answer alone (sub_denotes: the sub-graph is
+   acyclic and, for all values of the node's inputs, every sink called like the leaf of
+   output o denotes -- sources bound as the input map says, all others left alone -- what
+   the node computes for o).  The hypothesis splice_denotes of the theorem above is derived
+   from it (contract_splice_denotes).  Partial: says nothing about sinks that are expanded
+   themselves (their leaves and inner sinks become the sinks of the result). *)
+Theorem C11_expand_preserves_contract_partial :
+  forall (P V : Type) (interp : option P -> list string -> list (string * V) -> string -> V)
+         (expander : node P -> option (subspec P)) (g g' : graph P),
+  topo (heap g) ->
+  (forall n nd sub imap omap, nth_error (heap g) n = Some nd -> expander nd = Some (sub, imap, omap) ->
+     sub_denotes P V interp nd sub imap omap) ->
+  expand_graph expander g = Ok g' ->
+  forall s, In s (sinks g) -> (forall nd, nth_error (heap g) s = Some nd -> expander nd = None) ->
+  exists s', In s' (sinks g') /\ forall o, sem interp (heap g') s' o = sem interp (heap g) s o.
+Proof.
+  intros P V interp expander g g' Ht Hc H.
+  exact (expand_preserves_contract P V interp expander (heap g) Ht Hc g g' eq_refl H).
 Qed.
 
 (* fuse_nodes, for ANY callback that keeps the documented contract -- in every acyclic
@@ -300,6 +371,88 @@ Example C11_expand_nonvacuous :
                                           [("input", (5, "0")); ("n", (0, "0"))] ].
 Proof. eexists. split; [vm_compute; reflexivity|]. split; reflexivity. Qed.
 
+(* node blend(fg, bg) of g_maps is expanded with the EXPLICIT partial map {pix: fg} over a
+   sub-graph holding a constant source of its own called "bg": pix is fed by cam, bg stays a
+   source; with the empty map nothing is bound; with {a: bg, bg: fg} the names are crossed *)
+Definition g_maps : graph pv := mkGraph
+  [ mkNode "cam" ["0"] (Some (PStr "cam")) [];
+    mkNode "sky" ["0"] (Some (PStr "sky")) [];
+    mkNode "blend" ["0"] (Some (PStr "B")) [("fg", (0, "0")); ("bg", (1, "0"))];
+    mkNode "out" [] None [("input", (2, "0"))] ]
+  [3].
+Definition sub_maps (imap : option smap) : subspec pv :=
+  (mkGraph [ mkNode "pix" ["0"] (Some (PStr "unpack")) [];
+             mkNode "bg" ["0"] (Some (PStr "const")) [];
+             mkNode "mix" ["0"] None [("x", (0, "0")); ("y", (1, "0"))];
+             mkNode "res" [] None [("input", (2, "0"))] ] [3], imap, Some [("0", "res")]).
+
+Example C11_expand_sources_nonvacuous :
+  (forall k, source_binding (nins (nth 2 (heap g_maps) (mkNode "" [] None []))) (Some [("pix", "fg")]) k =
+             if String.eqb k "pix" then Some (0, "0") else None) /\
+  (exists g', expand_graph (expander_of [("blend", sub_maps (Some [("pix", "fg")]))]) g_maps = Ok g' /\
+     map (fun nd => (nname nd, nins nd)) (heap g') =
+       [ ("cam", []); ("sky", []); ("blend.pix", [("input", (0, "0"))]); ("blend.bg", []);
+         ("blend.mix", [("x", (2, "0")); ("y", (3, "0"))]); ("blend.res", [("input", (4, "0"))]); ("out", [("input", (5, "0"))]) ]) /\
+  (exists g', expand_graph (expander_of [("blend", sub_maps (Some []))]) g_maps = Ok g' /\
+     map (fun nd => (nname nd, nins nd)) (heap g') =
+       [ ("cam", []); ("sky", []); ("blend.pix", []); ("blend.bg", []);
+         ("blend.mix", [("x", (2, "0")); ("y", (3, "0"))]); ("blend.res", [("input", (4, "0"))]); ("out", [("input", (5, "0"))]) ]) /\
+  (exists g', expand_graph (expander_of [("blend", sub_maps None)]) g_maps = Ok g' /\
+     map (fun nd => (nname nd, nins nd)) (heap g') =
+       [ ("cam", []); ("sky", []); ("blend.pix", []); ("blend.bg", [("input", (1, "0"))]);
+         ("blend.mix", [("x", (2, "0")); ("y", (3, "0"))]); ("blend.res", [("input", (4, "0"))]); ("out", [("input", (5, "0"))]) ]) /\
+  (exists g', expand_graph (expander_of [("blend", sub_maps (Some [("pix", "bg"); ("bg", "fg")]))]) g_maps = Ok g' /\
+     map (fun nd => (nname nd, nins nd)) (heap g') =
+       [ ("cam", []); ("sky", []); ("blend.pix", [("input", (1, "0"))]); ("blend.bg", [("input", (0, "0"))]);
+         ("blend.mix", [("x", (2, "0")); ("y", (3, "0"))]); ("blend.res", [("input", (4, "0"))]); ("out", [("input", (5, "0"))]) ]) /\
+  (exists e, mk_sp_inputs (nins (nth 2 (heap g_maps) (mkNode "" [] None []))) (Some [("pix", "nope")]) = Err e).
+Proof.
+  split; [|split; [|split; [|split; [|split]]]].
+  - intros k. unfold source_binding. simpl. destruct (String.eqb k "pix"); reflexivity.
+  - eexists. split; [vm_compute; reflexivity|]. reflexivity.
+  - eexists. split; [vm_compute; reflexivity|]. reflexivity.
+  - eexists. split; [vm_compute; reflexivity|]. reflexivity.
+  - eexists. split; [vm_compute; reflexivity|]. reflexivity.
+  - eexists. vm_compute. reflexivity.
+Qed.
+
+(* the sub-graph contract is satisfiable by a sub-graph with an explicit PARTIAL input map
+   and a source of its own called like the node's input: values are integers, a node adds
+   its payload to its inputs; add3(x) = 3 + x is replaced by  0 + a(1 + x) + x'(2)  where
+   only a is bound ({a: x}) and x' -- called "x" -- stays a constant *)
+Definition zsum (p : option pv) (outs : list string) (args : list (string * Z)) (o : string) : Z :=
+  ((match p with Some (PInt z) => z | _ => 0 end) + fold_right (fun a acc => snd a + acc) 0 args)%Z.
+Definition g_sum : graph pv := mkGraph
+  [ mkNode "src" ["0"] (Some (PInt 10)) [];
+    mkNode "add3" ["0"] (Some (PInt 3)) [("x", (0, "0"))];
+    mkNode "w" [] None [("input", (1, "0"))] ] [2].
+Definition sub_sum : subspec pv :=
+  (mkGraph [ mkNode "a" ["0"] (Some (PInt 1)) [];
+             mkNode "x" ["0"] (Some (PInt 2)) [];
+             mkNode "0" [] None [("l", (0, "0")); ("r", (1, "0"))] ] [2], Some [("a", "x")], None).
+
+Example C11_expand_contract_nonvacuous :
+  topo (heap g_sum) /\
+  (forall n nd sub imap omap, nth_error (heap g_sum) n = Some nd -> expander_of [("add3", sub_sum)] nd = Some (sub, imap, omap) ->
+     sub_denotes pv Z zsum nd sub imap omap) /\
+  exists g', expand_graph (expander_of [("add3", sub_sum)]) g_sum = Ok g' /\
+             map (fun nd => (nname nd, nins nd)) (heap g') =
+               [ ("src", []); ("add3.a", [("input", (0, "0"))]); ("add3.x", []);
+                 ("add3.0", [("l", (1, "0")); ("r", (2, "0"))]); ("w", [("input", (3, "0"))]) ] /\
+             map (fun s => sem zsum (heap g') s "0") (sinks g') = map (fun s => sem zsum (heap g_sum) s "0") (sinks g_sum).
+Proof.
+  split; [apply topob_topo; reflexivity|]. split.
+  - intros n nd sub imap omap Hn He.
+    destruct n as [|[|[|n]]]; simpl in Hn; try (injection Hn as <-; vm_compute in He; try discriminate).
+    + injection He as <- <- <-. split; [apply topob_topo; reflexivity|].
+      intros ival Hf o lname s ns Ho Hs Hns Hnm. simpl in Hf.
+      destruct ival as [|[k v] [|? ?]]; simpl in Hf; try discriminate. injection Hf as ->.
+      simpl in Ho. destruct (String.eqb o "0"); [|discriminate]. injection Ho as <-.
+      destruct Hs as [<-|[]]. cbv - [Z.add]. lia.
+    + destruct n; discriminate.
+  - eexists. split; [vm_compute; reflexivity|]. split; reflexivity.
+Qed.
+
 (* the callback contract is satisfiable by a callback that does return nodes (for every
    interpretation): one that hands back the child under a new name; and on g_ex the model
    offers it exactly the single-consumer parents *)
@@ -350,6 +503,10 @@ Print Assumptions C11_dedup_no_two_equal.
 Print Assumptions C11_split_rejoin.
 Print Assumptions C11_expand_wiring.
 Print Assumptions C11_expand_leaves.
+Print Assumptions C11_expand_sources.
+Print Assumptions C11_expand_input_map_keyerror.
+Print Assumptions C11_expand_splice_sem.
+Print Assumptions C11_expand_preserves_contract_partial.
 Print Assumptions C11_expand_preserves_partial.
 Print Assumptions C11_fuse_preserves.
 Print Assumptions C11_split_partition.
